@@ -1,6 +1,6 @@
 SPECIFICATION Spec
 CONSTANTS
   MaxParams = 2
-  MaxArgs = 3
+  MaxArgs = 2
 INVARIANTS Emit ChainIsCall
 CHECK_DEADLOCK FALSE
